@@ -289,6 +289,11 @@ func (e *eng) cloneEffects(withReuse bool) []cloneEffect {
 				ce.copies = append(ce.copies, "copy("+short(absint.Key(a[0]))+", "+short(absint.Key(a[1]))+")")
 				return absint.NewVar("copied", nil), true
 			}
+			if name == "clear" && len(a) == 1 {
+				// wiping part of a stack is a write into it like any other
+				ce.copies = append(ce.copies, "clear("+short(absint.Key(a[0]))+")")
+				return nil, true
+			}
 			return nil, false
 		}
 		in.Hooks.Call = func(in *absint.Interp, callee *ssa_Function, a []absint.Val, site ssa_Instruction) (absint.Val, bool) {
